@@ -21,26 +21,27 @@ def _bs(tr, n, obj, args, argnodes):
 UNIT = {
     'name': 'nodetasks',
     'source': 'lib/BuildSystem/BuildSystem.cpp',
-    'dumps': ['FileInputNodeTask', 'ProducedNodeTask', 'BuildValue::Kind', 'buildsystem::BuildValue', 'BuildNode::NodeType', 'buildsystem::BuildNode'],
+    'dumps': ['FileInputNodeTask', 'ProducedNodeTask', 'MissingCommandTask', 'TargetTask', 'CommandTask', 'BuildValue::Kind', 'buildsystem::BuildValue', 'BuildNode::NodeType', 'buildsystem::BuildNode'],
     'types': {'StringRef': 'strref', 'basic::FileInfo': 'struct FileInfo', 'FileInfo': 'struct FileInfo', 'BuildValue::FileInfo': 'struct FileInfo', 'buildsystem::BuildValue::FileInfo': 'struct FileInfo',
               'TaskInterface': 'struct TaskInterface', 'core::TaskInterface': 'struct TaskInterface', 'ValueType': 'struct valuedata', 'core::ValueType': 'struct valuedata', 'KeyType': 'struct valuedata', 'core::KeyType': 'struct valuedata'},
-    'type_patterns': [(r'(std::)?vector<(unsigned char|uint8_t).*>', 'struct valuedata')],
+    'type_patterns': [(r'(std::)?vector<(unsigned char|uint8_t).*>', 'struct valuedata'), (r'(llvm::)?SmallPtrSet<(buildsystem::)?Node \*, \d+>', 'struct nodeset'), (r'(std::)?vector<(buildsystem::)?Node \*.*>', 'struct nodelist')],
     'by_value': ['strref', 'struct FileInfo', 'struct TaskInterface', 'struct BuildValue', 'struct valuedata'],
-    'predefined_structs': ['FileInfo', 'TaskInterface', 'valuedata'],
+    'predefined_structs': ['FileInfo', 'TaskInterface', 'valuedata', 'nodeset', 'nodelist'],
     'struct_extra': {'BuildNode': '  size_t g_idx;\n', 'FileSystem': '', 'BuildValue': '  unsigned g_n;\n  const void *g_src;\n'},
     'need_fields': {'BuildValue': ['kind'], 'ProducedNodeTask': ['isInvalid', 'nodeResult', 'producingCommand', 'node'], 'FileInputNodeTask': ['node']},
-    'ref_fields': ['FileInputNodeTask::node', 'ProducedNodeTask::node'],
-    'no_translate': ['getFileInfo', 'getNthOutputInfo', 'getOutputInfo', 'getNumOutputs', 'getFileSystem', 'getBuildSystem', 'getDelegate', 'hadCommandFailure', 'complete', 'toData', 'fromData', 'getResultForOutput'],
+    'ref_fields': ['FileInputNodeTask::node', 'ProducedNodeTask::node', 'TargetTask::target', 'CommandTask::command'],
+    'no_translate': ['providePriorValue', 'provideValue', 'getNodes', 'getFileInfo', 'getNthOutputInfo', 'getOutputInfo', 'getNumOutputs', 'getFileSystem', 'getBuildSystem', 'getDelegate', 'hadCommandFailure', 'complete', 'toData', 'fromData', 'getResultForOutput'],
     'calls': {
         'm:BuildValue::getOutputInfo': 'verif_stored_info0', 'm:BuildNode::getFileInfo': 'verif_current_info',
         'm:@struct FileInfo::isMissing': '($o->missing != 0)', 'o:==:@struct FileInfo': 'verif_info_eq', 'm:BuildSystem::getFileSystem': 'verif_fs', 'fn:getBuildSystem': _bs,
         'm:BuildSystem::getDelegate': 'verif_delegate', 'm:BuildSystemImpl::getDelegate': 'verif_delegate', 'm:BuildSystemImpl::getFileSystem': 'verif_fs', 'm:BuildSystemDelegate::hadCommandFailure': 'verif_had_failure',
         'm:TaskInterface::complete': 'ti_complete', 'm:@struct TaskInterface::complete': 'ti_complete', 'm:BuildValue::toData': 'bv_to_data', 'm:@struct BuildValue::toData': 'bv_to_data',
-        'm:BuildValue::fromData': 'bv_from_data', 'fn:fromData': 'bv_from_data', 'm:Command::getResultForOutput': 'verif_result_for_output', 'o:=:@struct BuildValue': '(*$o = $0)',
+        'm:BuildValue::fromData': 'bv_from_data', 'fn:fromData': 'bv_from_data', 'm:Command::getResultForOutput': 'verif_result_for_output', 'm:Command::providePriorValue': 'verif_cmd_prior', 'm:Command::provideValue': 'verif_cmd_provide', 'm:BuildSystemImpl::getBuildSystem': 'verif_outer_bs',
+        'm:Target::getNodes': 'verif_target_nodes', 'o:[]:@struct nodelist': 'nodelist_at($o, $0)', 'm:@struct nodeset::insert': ('nodeset_insert', 'v'), 'o:=:@struct BuildValue': '(*$o = $0)',
     },
     'call_patterns': [(r'fn:make[A-Z].*', _mk), (r'm:BuildValue::make[A-Z].*', _mk), (r'c:(buildsystem::)?BuildValue\((buildsystem::)?BuildValue &&\)', '$0'), (r'c:(basic::)?FileInfo\((const )?(basic::)?FileInfo &+\)', '$0'),
                       (r'o:=:BuildValue', '(*$o = $0)')],
-    'prelude': '#include "models/base.h"\n#include "models/vec.h"\n#include "models/extresult.h"\nstruct valuedata { int kind; const void *src; };\n',
+    'prelude': '#include "models/base.h"\n#include "models/vec.h"\n#include "models/extresult.h"\nstruct valuedata { int kind; const void *src; };\nstruct nodeset { unsigned n; const void *last; }; struct nodelist { char _e; };\n',
     'after_structs': '#include "models/nodetasks_after.h"\n',
     'functions': {
         'FileInputNodeTask::isResultValid': {
@@ -68,5 +69,23 @@ UNIT = {
             'ensures': [
                 # a node that cannot be produced fails the build and yields a failed input (never a stale or invented value)
                 ('P:C10', 'self->isInvalid ? (g_failures == 1 && g_completes == 1 && g_complete_kind == %sFailedInput) : (g_failures == 0 && g_completes == 1 && g_complete_kind == (int)self->nodeResult.kind)' % K)]},
+        # a command that is no longer in the description builds to an invalid value and forces its former consumers to re-run
+        'MissingCommandTask::inputsAvailable': {
+            'requires': ['g_completes == 0'], 'assigns': ['g_completes', 'g_complete_kind', 'g_complete_force'],
+            'ensures': [('P:C08', 'g_completes == 1 && g_complete_kind == BuildValue_Kind_Invalid && g_complete_force')]},
+        # a target is re-evaluated in every build
+        'TargetTask::isResultValid': {'requires': [], 'assigns': [], 'ensures': [('P:C08', '!RESULT')]},
+        'TargetTask::provideValue': {
+            'requires': ['__CPROVER_is_fresh(self, sizeof(*self))', '__CPROVER_is_fresh(self->target, 1)'],
+            'assigns': ['self->missingInputNodes'],
+            # exactly the nodes whose value is a missing input are remembered (the node at the position of the request)
+            'ensures': [('P:C10', '(valueData.kind == BuildValue_Kind_MissingInput) ? (self->missingInputNodes.n == OLD(self->missingInputNodes.n) + 1 && self->missingInputNodes.last == NODE_AT(inputID)) : self->missingInputNodes.n == OLD(self->missingInputNodes.n)')]},
+        # the command sees exactly the values the engine delivers, under the input id the engine delivers them with
+        'CommandTask::providePriorValue': {
+            'requires': ['__CPROVER_is_fresh(self, sizeof(*self))', '__CPROVER_is_fresh(self->command, 1)', 'g_prior_calls == 0'], 'assigns': ['g_prior_calls', 'g_fwd_src'],
+            'ensures': [('P:C10,P:C09', 'g_prior_calls == 1 && g_fwd_src == valueData.src')]},
+        'CommandTask::provideValue': {
+            'requires': ['__CPROVER_is_fresh(self, sizeof(*self))', '__CPROVER_is_fresh(self->command, 1)', 'g_provide_calls == 0'], 'assigns': ['g_provide_calls', 'g_fwd_src', 'g_fwd_id'],
+            'ensures': [('P:C10,P:C08', 'g_provide_calls == 1 && g_fwd_src == valueData.src && g_fwd_id == inputID')]},
     },
 }
